@@ -192,7 +192,7 @@ static Pencil<T> make_pencil(const Desc& d, bool b_general)
 }
 
 template <typename T, typename Solver, typename Base, typename MakeSolver>
-static void run_solver(const Desc& d, Ctx& cx, OpStats& st, OpStats& stB, MakeSolver mk, std::function<ll()> probe)
+static void run_solver(const Desc& d, Ctx& cx, OpStats& st, OpStats& stB, MakeSolver mk, std::function<ll()> probe, std::function<void()> reshift = std::function<void()>())
 {
     TraceSink sink;
     reset_line(d, cx, Ty<T>::code(), 0, ++g_id);
@@ -200,6 +200,7 @@ static void run_solver(const Desc& d, Ctx& cx, OpStats& st, OpStats& stB, MakeSo
     r.lanczos = true;
     r.make = mk;
     r.op_probe = probe;
+    r.op_reshift = reshift;
     if (d.s("ftarget", "a") == "b")
         r.fst = &stB;
     SymProblem sp;
@@ -327,7 +328,10 @@ static void run_shift_with(const Desc& d, Ctx& cx, const MA& Aarg, const MB& Bar
     InB inb(BBarg);
     Op op(ina, &st);
     BOp bop(inb, &stB);
-    run_solver<T, Solver, Base>(d, cx, st, stB, [&]() { return new Solver(op, bop, nev, ncv, sigma); }, [&]() { return probe_op(op, n); });
+    // the shift is handed over in a variable of the caller that is overwritten right after construction: the solver must have taken a copy
+    T sigvar = sigma;
+    run_solver<T, Solver, Base>(d, cx, st, stB, [&]() { sigvar = sigma; Solver* s = new Solver(op, bop, nev, ncv, sigvar); sigvar = sigma + T(977); return s; }, [&]() { return probe_op(op, n); },
+                                [&]() { ina.set_shift((T) d.f("resig", 0.21L)); ina.set_shift(sigma); });
 }
 
 template <typename T, GEigsMode Mode, int UploA, int UploB>
